@@ -2193,7 +2193,10 @@ int sxiWrUnscanToken(SExpr s)
 				break;
 			}
 		if (!*c) {
-			/* if no exponent marker, add one */
+			/* if no exponent marker, add one; the reader wants
+			 * a digit after the point, and %#g prints seventeen
+			 * digits of a number of that size as "ddd...d." */
+			if (c > buf && c[-1] == '.') *c++ = '0';
 			*c++ = s->sxFloat.marker;
 			*c++ = '0';
 			*c = '\0';
